@@ -148,6 +148,10 @@ class Gen(object):
             if self.profile.get("inject_format") and self.p(0.2):
                 # client-chosen text that means something to str.format / % if the server ever uses it as a template
                 return {"k": "text", "v": self.ch(INJECT)}
+            if self.p(self.profile.get("long_text", 0.03)):
+                # text at and beyond the lengths the storage declares for its columns (String(50), String(255))
+                n = self.ch([50, 51, 64, 255, 256, 1000])
+                return {"k": "text", "v": ("long-" + name.replace(" ", "")[:8] + "-" + "x" * n)[:n]}
             if name == "Operation Policy Name":
                 return {"k": "text", "v": self.ch(POLICY_NAMES)}
             if name == "Object Group":
